@@ -271,6 +271,48 @@ func c20Drive(args []string) int {
 			sum.eval(true, M{"schema-arg": k})
 		}
 	}
+	// what a call sees besides its named arguments, through a schema (where the library decides what to pass): the plain
+	// variant sees nothing of the record - no _node unless it is one of its own arguments - and gives the same result on
+	// every record; the context variant sees the record as it is now
+	depSchema := `{"parser_settings": {"version": "omni.2.1", "file_format_type": "json"},
+ "transform_declarations": {"FINAL_OUTPUT": {"xpath": "/*", "object": {
+   "p_type": {"custom_func": {"name": "javascript", "args": [{"const": "typeof _node + '/' + typeof s + '/' + typeof i"}]}},
+   "p_arg": {"custom_func": {"name": "javascript", "args": [{"const": "_node + '!'"}, {"const": "_node"}, {"xpath": "s"}]}},
+   "p_same": {"custom_func": {"name": "javascript", "args": [{"const": "a + (typeof _node === 'undefined' ? '' : _node.length)"}, {"const": "a"}, {"const": "k"}]}},
+   "c_type": {"custom_func": {"name": "javascript_with_context", "args": [{"const": "typeof _node + '/' + typeof s"}]}},
+   "c_s": {"custom_func": {"name": "javascript_with_context", "args": [{"const": "JSON.parse(_node).s + a"}, {"const": "a"}, {"const": "+"}]}}}}}}`
+	refSchema := `{"parser_settings": {"version": "omni.2.1", "file_format_type": "json"},
+ "transform_declarations": {"FINAL_OUTPUT": {"xpath": "/*", "object": {
+   "p_ref": {"custom_func": {"name": "javascript", "args": [{"const": "_node.length > 0 ? 'sees the record' : 'empty'"}]}}}}}}`
+	depIn := `[{"i": "7", "s": "x"}, {"i": "0", "s": "yy", "more": [1, 2, 3]}, {"s": "é"}]`
+	for _, d := range []struct {
+		name, schema string
+		want         []string
+	}{
+		{"what a call sees", depSchema, []string{
+			`ok {"c_s":"x+","c_type":"string/undefined","p_arg":"x!","p_same":"k","p_type":"undefined/undefined/undefined"}`,
+			`ok {"c_s":"yy+","c_type":"string/undefined","p_arg":"yy!","p_same":"k","p_type":"undefined/undefined/undefined"}`,
+			`ok {"c_s":"é+","c_type":"string/undefined","p_arg":"é!","p_same":"k","p_type":"undefined/undefined/undefined"}`}},
+		{"a plain script that reads _node", refSchema, []string{"failed", "failed", "failed"}},
+	} {
+		sch, e, p := newSchema([]byte(d.schema))
+		if e != nil || p != "" {
+			fmt.Println("error: c20 dependence schema rejected", e, p)
+			return 3
+		}
+		out := runTranscript(sch, strings.NewReader(depIn), RunOpts{MaxReads: 6})
+		for k, w := range d.want {
+			got := "missing"
+			if k < len(out.Results) {
+				got = out.Results[k].Class
+				if got == "ok" {
+					got += " " + out.Results[k].Out
+				}
+			}
+			calls = append(calls, M{"ev": "value", "tr": 1000 + len(calls), "kind": "argument", "script": fmt.Sprintf("%s, through a schema, record %d", d.name, k+1), "expected": w, "got": got})
+			sum.eval(true, M{"schema-dep": d.name, "k": k})
+		}
+	}
 	var events []interface{}
 	events = append(events, rec.events...)
 	events = append(events, calls...)
